@@ -124,9 +124,11 @@ def generate(rng, tier, index):
     for p in ps:    # keep everything inside the box
         for a, Lh in (("x", Lx / 2), ("y", Ly / 2), ("z", Lz / 2)):
             p[a] = max(-Lh + 1e-3, min(Lh - 1e-3, p[a]))
+    na = rng.derive("nactive")
+    n_active = na.randint(1, max(1, len(ps) - 1)) if (na.chance(0.3) and len(ps) >= 3) else None     # the searches and resolvers take no notice of N_active; the removal paths do
     seeds = [rng.derive("order", k).randint(1, 2**31 - 1) for k in range(6 if tier == "quick" else 32)]
     return dict(mode=mode, boundary=boundary, box=dict(size=L, nx=nx, ny=ny, nz=nz), nghost=ng, resolver=resolver, keep_sorted=keep_sorted, dt=dt,
-                steps=c.randint(1, 4), particles=ps, structure=structure, seeds=seeds, eps=c.choice([1.0, 1.0, 0.5]), alloc=c.choice([1, 2, 2]))
+                steps=c.randint(1, 4), particles=ps, structure=structure, seeds=seeds, n_active=n_active, eps=c.choice([1.0, 1.0, 0.5]), alloc=c.choice([1, 2, 3]))
 
 
 def shrink(case, still_fails, viol=None):
@@ -208,6 +210,8 @@ def execute(case, ctx):
         sim.rand_seed = seed
         for p in case["particles"]:
             sim.add(m=p["m"], x=p["x"], y=p["y"], z=p["z"], vx=p["vx"], vy=p["vy"], vz=p["vz"], r=p["r"], hash=p["hash"])
+        if case.get("n_active"):
+            sim.N_active = case["n_active"]
         if case["eps"] != 1.0 and resolver == "hardsphere":
             sim.coefficient_of_restitution = lambda r, v: case["eps"]
         pre = []          # state seen by the search (before boundary wrap), per step
